@@ -1,21 +1,41 @@
 """C01 — the pattern parser is faithful.
 
-Three-way comparison on generated writings of generated (multi)graphs:
-    real `fgutils.parse.Parser`  vs  Lean model parser (`C01.parse`)  vs  Lean `denote` (the spec,
-    applied to the implementation's output).
+Four-way comparison on generated writings of generated (multi)graphs:
+    real `fgutils.parse.Parser`  vs  Lean model parser (`C01.parse`, over the tables regenerated from the
+    source)  vs  Lean `denoteRef` (the spec over HAND-WRITTEN reference tables, applied to the
+    implementation's output)  vs  a Python oracle (`expected_canon` / `py_wf`, below) that is independent of
+    Lean and of /repo: the generator records which atoms it wrote in which order and which pairs it bonded
+    with which written order.
 The generator produces a syntax tree (`Chain`, see lean/FGVerif/Model/C01Spec.lean) and its string;
 the Lean driver re-renders the tree and refuses to answer when the two strings differ.
+
+Domain: `in_domain` = valid writing of the DOCUMENTED syntax, decided by the Python oracle `py_wf` and by
+Lean `WFRef` (Model/C01Ref.lean); the two must agree (else exit 2).  Neither reads anything from /repo, so
+an edit of the token tables of the source cannot move a writing out of the domain.  Every writing of the
+main generator is valid by construction: one that `py_wf`/`WFRef` rejects is a machinery error (exit 2); one
+that `WF` over the regenerated tables rejects is a witness that the table obligations
+(`tbl_atom_reachable`, `tbl_atom_alphabet_documented`, `tbl_bond_orders_documented`) fail — it stays in the
+domain and is judged by the reference specification.
+
+HISTORY scenarios (a fixed fifth of the valid generated writings): the writing is parsed on a long-lived
+`Parser` object per configuration that has parsed other strings before (`<g,h>` patterns, strings it rejected,
+unfinished patterns: `ReusedParsers`), and the specification is applied to THAT result; every call of the
+module-level `parse()` is logged as well (`ml_parse`).  The replay file records the preceding calls and
+`--replay` re-runs them on a new object.
 
 chain (python form)  := (atom, [item, …])
 atom                 := ('e', 'Cl') | ('w',) | ('l', ['a', 'b'])
 item                 := ('r', bond, '12') | ('b', bond, chain) | ('n', bond, chain)     ('n' last)
 bond                 := None | ('s', '=') | ('c', '1', '')
 """
+import collections
 import json
 import os
 import re
+import sys
 
-from common import Atom, Case, Run, call_impl, prepare, ImplError, sx, enc_graph, enc_label, canon, CORPUS_DIR
+import common
+from common import Atom, Case, Run, call_impl, prepare, ImplError, sx, sx_of, enc_graph, enc_label, canon, CORPUS_DIR
 
 _SAFE_FULL = re.compile(r"[A-Za-z0-9_#+.*-]*")
 
@@ -28,6 +48,15 @@ def S(s):
 
 
 PROOFS = ["FGVerif.Proofs.C01", "FGVerif.Proofs.C01Shift"]
+
+# ---------------------------------------------------------------------------
+# the documented syntax, written down by hand (doc/graph_syntax.rst, Parser docstring, SMILES bond symbols);
+# NOT read from /repo and not from Lean.  Orders doubled (':' = 1.5 -> 3; '.' = no bond -> 0).
+# ---------------------------------------------------------------------------
+DOC_BOND = {'-': 2, '=': 4, '#': 6, '$': 8, ':': 3, '.': 0}
+DOC_ATOMS = frozenset("H Br Cl Se Sn Si Mg Li C N O P S F B I b c n o p s".split())
+_LABEL_TEXT = re.compile(r"[A-Za-z0-9_-]+")
+_DIGITS = re.compile(r"[0-9]*")
 
 ELEMS_UP = ['C', 'C', 'C', 'N', 'O', 'S', 'P', 'F', 'Cl', 'Br', 'I', 'H', 'B', 'Si', 'Se', 'Sn', 'Mg', 'Li']
 ELEMS_LOW = ['c', 'c', 'c', 'n', 'o', 's', 'p', 'b']
@@ -118,6 +147,152 @@ def chain_stats(chain, st=None):
             st['branches'] += it[0] == 'b'
             chain_stats(it[2], st)
     return st
+
+
+# ---------------------------------------------------------------------------
+# Python oracle for domain and denotation (independent of Lean and of /repo)
+# ---------------------------------------------------------------------------
+def atom_symbol(a):
+    return a[1] if a[0] == 'e' else 'R' if a[0] == 'w' else '#'
+
+
+def py_events(chain):
+    """textual walk: (atoms, bonds, marks, has_rc)
+    atoms: the atom tokens in textual order (index = atom number)
+    bonds: (u, v, written bond) — chain/branch bonds and ring closures (closing atom, opening atom,
+           bond written at the closing digit), the 2m-1-th occurrence of a ring id paired with the 2m-th
+    marks: (atom, written bond, ring id, closes?) in textual order"""
+    atoms, bonds, marks = [], [], []
+    open_ids = {}
+    has_rc = [False]
+
+    def walk(c, parent):
+        a, items = c
+        u = len(atoms)
+        atoms.append(a)
+        if parent is not None:
+            bonds.append((parent[0], u, parent[1]))
+        for it in items:
+            if it[1] is not None and it[1][0] == 'c':
+                has_rc[0] = True
+            if it[0] == 'r':
+                if it[2] in open_ids:
+                    bonds.append((u, open_ids.pop(it[2]), it[1]))
+                    marks.append((u, it[1], it[2], True))
+                else:
+                    open_ids[it[2]] = u
+                    marks.append((u, it[1], it[2], False))
+            else:
+                walk(it[2], (u, it[1]))
+    walk(chain, None)
+    return atoms, bonds, marks, has_rc[0], sorted(open_ids)
+
+
+def rc_val(t):
+    return 2 if t == '' else 2 * int(t)
+
+
+def py_label(b, low, its):
+    """doubled label of a written bond (None = no edge): documented orders; no symbol = aromatic iff both atoms
+    are written in lower case, else single; in an ITS pattern every scalar order o is the pair (o, o)"""
+    if b is None:
+        o = 3 if low else 2
+    elif b[0] == 's':
+        o = DOC_BOND[b[1]]
+        if o == 0:
+            return None
+    else:
+        return [rc_val(b[1]), rc_val(b[2])]
+    return [o, o] if its else o
+
+
+def _lkey(l):
+    if l is None:
+        return (2, 0, 0)
+    if isinstance(l, list):
+        return (1, l[0], l[1])
+    return (0, l, 0)
+
+
+def expected_canon(atoms, bonds, its, multi, aam, off):
+    """the canonical view (same shape as canon_graph) of the graph a writing denotes, from the atoms written
+    (in order) and the pairs bonded (with the written bond)"""
+    nodes = []
+    for i, a in enumerate(atoms):
+        nodes.append([i + off, atom_symbol(a), list(a[1]) if a[0] == 'l' else [], a[0] == 'l', (i + off + 1) if aam else None])
+    edges = []
+    for u, v, b in bonds:
+        low = atom_symbol(atoms[u]).islower() and atom_symbol(atoms[v]).islower()
+        l = py_label(b, low, its)
+        if l is not None:
+            edges.append([min(u, v) + off, max(u, v) + off, l])
+    edges.sort(key=lambda e: (e[0], e[1]) + _lkey(e[2]))
+    return [multi, nodes, edges]
+
+
+def chain_tokens(chain, out=None):
+    """the writing as a list of (kind, text)"""
+    out = [] if out is None else out
+    a, items = chain
+    out.append(('A' if a[0] == 'e' else 'W' if a[0] == 'w' else 'L', atom_text(a), a))
+    for it in items:
+        if it[0] == 'b':
+            out.append(('O', '(', None))
+        if it[1] is not None:
+            out.append(('B', bond_text(it[1]), it[1]))
+        if it[0] == 'r':
+            out.append(('D', it[2], None))
+        else:
+            chain_tokens(it[2], out)
+        if it[0] == 'b':
+            out.append(('C', ')', None))
+    return out
+
+
+def py_wf(chain, multi):
+    """(valid writing of the documented syntax?, reason)"""
+    toks = chain_tokens(chain)
+    for k, (kind, text, obj) in enumerate(toks):
+        nxt = toks[k + 1][1][:1] if k + 1 < len(toks) and toks[k + 1][1] else ''
+        if kind == 'A':
+            if text not in DOC_ATOMS:
+                return False, "unknown_element"
+            if nxt and (text + nxt) in DOC_ATOMS:
+                return False, "longer_symbol(%s)" % (text + nxt)        # the longest symbol wins: `S` + `n` is tin
+        elif kind == 'L':
+            if not obj[1] or not all(_LABEL_TEXT.fullmatch(l) for l in obj[1]):
+                return False, "label_text"
+        elif kind == 'B':
+            if obj[0] == 's':
+                if obj[1] not in DOC_BOND:
+                    return False, "unknown_bond_symbol"
+            elif not (_DIGITS.fullmatch(obj[1]) and _DIGITS.fullmatch(obj[2])):
+                return False, "rc_bond_text"
+        elif kind == 'D':
+            if not text or not _DIGITS.fullmatch(text):
+                return False, "ring_id_text"
+            if nxt.isdigit():
+                return False, "ring_digits_fuse"
+    atoms, bonds, marks, its, still_open = py_events(chain)
+    if any(b is not None and not closes for _, b, _, closes in marks):
+        return False, "bond_before_opening_ring_digit"
+    if still_open:
+        return False, "unclosed_ring"
+    seen = set()
+    for u, v, b in bonds:
+        if py_label(b, False, its) is None:
+            continue
+        if u == v:
+            return False, "self_bond"
+        if not multi:
+            if frozenset((u, v)) in seen:
+                return False, "pair_bonded_twice"
+            seen.add(frozenset((u, v)))
+    return True, ""
+
+
+def bonds_key(bonds):
+    return sorted((min(u, v), max(u, v), repr(b)) for u, v, b in bonds)
 
 
 # ---------------------------------------------------------------------------
@@ -277,7 +452,9 @@ def walk_marks(nd, fn):
 
 
 def gen_chain(rng, n_atoms, its, multi, p_low):
-    """returns (chain, info)"""
+    """returns (chain, (atoms written in textual order, bonded pairs with the written bond)) — the second
+    component is the generator's own record of what it wrote (the Python oracle's input), not a re-reading
+    of the chain.  Every chain returned is a valid writing of the documented syntax by construction."""
     root = gen_tree(rng, [n_atoms - 1], its, p_low)
     atoms = textual_atoms(root, [])
     n = len(atoms)
@@ -319,8 +496,16 @@ def gen_chain(rng, n_atoms, its, multi, p_low):
             break
         for nd in atoms:
             nd.items = [it for it in nd.items if not (it[0] == 'r' and it[3] == bad[0])]
+    # the longest element symbol wins (`S` directly followed by `n` is tin): write the bond out
+    for nd in atoms:
+        if nd.atom[0] == 'e' and nd.items and nd.items[0][0] == 'n' and nd.items[0][1] is None:
+            ch = nd.items[0][2].atom
+            if ch[0] == 'e' and (nd.atom[1] + ch[1][:1]) in DOC_ATOMS:
+                nd.items[0][1] = ('s', rng.choice(['-', '-', '=', ':']))
     # ring numbering in textual order: an opening mark takes any id that is not open
     open_ids = {}
+    opener = {}
+    ring_bonds = []
     free_pref = rng.random()
 
     def number(nd, k):
@@ -330,7 +515,9 @@ def gen_chain(rng, n_atoms, its, multi, p_low):
             it[2] = open_ids.pop(no)
             after_mark = k > 0 and nd.items[k - 1][0] == 'r'
             it[1] = gen_bond(rng, its, allow_none=not after_mark, p_none=0.55, p_dot=0.12)
+            ring_bonds.append((nd.idx, opener.pop(no), it[1]))
         else:
+            opener[no] = nd.idx
             used = set(open_ids.values())
             if free_pref < 0.5:
                 cands = [i for i in RING_IDS if i not in used]
@@ -349,7 +536,8 @@ def gen_chain(rng, n_atoms, its, multi, p_low):
             else:
                 items.append((it[0], it[1], freeze(it[2])))
         return (nd.atom, items)
-    return freeze(root)
+    tree_bonds = [(nd.idx, it[2].idx, it[1]) for nd in atoms for it in nd.items if it[0] != 'r']
+    return freeze(root), ([nd.atom for nd in atoms], tree_bonds + ring_bonds)
 
 
 # ---------------------------------------------------------------------------
@@ -390,9 +578,139 @@ def impl_tokens(s):
     return [[Atom(k), S(v)] for k, v, _ in P.tokenize(s)]
 
 
-def check_case(chain, s, multi, aam, off, rng=None, tags=(), in_domain=True, meta=None):
-    via_function = (not multi) and rng is not None and rng.random() < 0.3
-    g = call_impl(impl_parse, s, multi, aam, off, via_function)
+# ---------------------------------------------------------------------------
+# HISTORY scenarios: the same `Parser` object is used for a sequence of writings
+# ---------------------------------------------------------------------------
+# calls made on the reused object BEFORE the writing under test, to leave as much state behind as possible:
+HISTORY_ITS = ['C<1,2>C', 'c1ccccc1<1,2>C', 'C<2,1>C<,2>O', 'CC<0,1>C.C', 'C1CC<1,2>1', '{a}<,>R']        # `is_its` must not stick
+HISTORY_REJECTED = ['CC(C!)C', 'C1CC=x', 'c1cc<1,2>c!', '1CC', 'C!C', 'C)C', 'C/C', 'C(C))', 'C{a b}', 'C1CC1x',
+                    'CC(=O)Oz', 'N(C)(C(C%']                                                                    # the parser raised
+HISTORY_UNFINISHED = ['C(C', 'C1CC', 'C(C(C', 'C=', 'C1CC=', 'c1cc(', 'C.', 'C<1,2>']                         # accepted, but a branch / ring / bond is left open
+SESSION_LENGTHS = [2, 3, 4, 6, 8, 12, 40]
+
+
+class ReusedParsers:
+    """long-lived `Parser` objects, one per configuration (use_multigraph, init_aam).  Each is used for a
+    session of 2..40 writings under test (then replaced, so that the COMPLETE list of preceding calls fits into
+    a replay file); before a writing under test the object is, most of the time, first given a `<g,h>` pattern,
+    a string it rejects, or an unfinished pattern.  `call` returns the result on the reused object together with
+    everything that was parsed on that object before."""
+
+    def __init__(self, rng):
+        self.rng = rng
+        self.sessions = {}
+        self.calls = 0
+
+    def call(self, multi, aam, s, off):
+        import fgutils.parse as P
+        rng = self.rng
+        key = (bool(multi), bool(aam))
+        ses = self.sessions.get(key)
+        if ses is None or ses["left"] <= 0:
+            ses = {"parser": P.Parser(use_multigraph=multi, init_aam=aam), "calls": [], "left": rng.choice(SESSION_LENGTHS)}
+            self.sessions[key] = ses
+        kinds = []
+        r = rng.random()
+        pre = None
+        if r < 0.3:
+            pre = (rng.choice(HISTORY_ITS), "after_its")
+        elif r < 0.6:
+            pre = (rng.choice(HISTORY_REJECTED), "after_rejected")
+        elif r < 0.75 or not ses["calls"]:
+            pre = (rng.choice(HISTORY_UNFINISHED), "after_unfinished")
+        if pre is not None:
+            o = rng.choice([0, 0, 3])
+            res = call_impl(ses["parser"].parse, pre[0], o)
+            ses["calls"].append({"pattern": pre[0], "off": o,
+                                 "result": ("raised " + res.kind) if isinstance(res, ImplError) else "ok"})
+            kinds.append(pre[1])
+        if any(c["result"].startswith("raised") for c in ses["calls"]):
+            kinds.append("some_earlier_call_rejected")
+        history = [dict(c) for c in ses["calls"]]
+        g = call_impl(ses["parser"].parse, s, off)
+        ses["calls"].append({"pattern": s, "off": off, "result": ("raised " + g.kind) if isinstance(g, ImplError) else "ok"})
+        ses["left"] -= 1
+        self.calls += 1
+        return g, history, kinds
+
+
+# every call of the module-level `fgutils.parse.parse` made by the harness goes through `ml_parse`, so that a case
+# evaluated through that function can record what the function was given before (a module-level parser object
+# that survives between calls would make the result depend on it)
+_ML_RECENT = collections.deque(maxlen=4)
+_ML_PROVOCATION = []
+_ML_LAST = {}             # the last `<g,h>` pattern and the last rejected string given to the function (with a serial number)
+_ML_SERIAL = [0]
+
+
+def ml_parse(s, off=0, aam=False, provocation=None):
+    """provocation: None (a case under test), "first" (first string of a provocation batch) or "more" """
+    import fgutils.parse as P
+    res = call_impl(P.parse, s, idx_offset=off, init_aam=aam)
+    e = {"pattern": s, "off": off, "aam": aam, "result": ("raised " + res.kind) if isinstance(res, ImplError) else "ok"}
+    _ML_SERIAL[0] += 1
+    e["n"] = _ML_SERIAL[0]
+    if provocation == "first":
+        del _ML_PROVOCATION[:]
+    if provocation:
+        _ML_PROVOCATION.append(e)
+    if "<" in s and not isinstance(res, ImplError):
+        _ML_LAST["its"] = e
+    if isinstance(res, ImplError):
+        _ML_LAST["rejected"] = e
+    _ML_RECENT.append(e)
+    return res
+
+
+def ml_history():
+    """what the module-level parse() was given before, in call order (`n` = serial number of the call in this
+    process): the last accepted `<g,h>` pattern, the last rejected string, the latest provocation batch and the
+    last four calls"""
+    es = {e["n"]: e for e in list(_ML_LAST.values()) + _ML_PROVOCATION + list(_ML_RECENT)}
+    return [dict(es[n]) for n in sorted(es)]
+
+
+def ml_replay(history, s, off=0, aam=False):
+    import fgutils.parse as P
+    for h in history:
+        call_impl(P.parse, h["pattern"], idx_offset=int(h.get("off", 0)), init_aam=bool(h.get("aam", False)))
+    return call_impl(P.parse, s, idx_offset=off, init_aam=aam)
+
+
+def replay_history(multi, aam, history, s, off):
+    """a new Parser object, the recorded preceding calls, then the writing under test"""
+    import fgutils.parse as P
+    p = P.Parser(use_multigraph=multi, init_aam=aam)
+    for c in history:
+        call_impl(p.parse, c["pattern"], int(c["off"]))
+    return call_impl(p.parse, s, off)
+
+
+def check_case(chain, s, multi, aam, off, rng=None, tags=(), in_domain=True, meta=None, reused=None):
+    m = {"pattern": s, "multi": multi, "aam": aam, "off": off}
+    tags = list(tags)
+    if reused is not None:
+        # HISTORY scenario: the implementation output is the one of the REUSED object; the specification is
+        # applied to it like to any other output, the replay records the preceding calls
+        via_function = False
+        g, history, kinds = reused.call(multi, aam, s, off)
+        fresh = call_impl(impl_parse, s, multi, aam, off, False)
+        same = (isinstance(g, ImplError) and isinstance(fresh, ImplError) and g.kind == fresh.kind) or (
+            not isinstance(g, ImplError) and not isinstance(fresh, ImplError) and enc_graph(g) == enc_graph(fresh))
+        m.update({"reused_parser": True, "history": history, "reused_equals_fresh_object": same})
+        tags += ["history"] + ["history:" + k for k in kinds] + ([] if same else ["history:differs_from_fresh_object"])
+    else:
+        via_function = (not multi) and rng is not None and rng.random() < 0.3
+        if via_function:
+            # module-level parse(): now and then directly after a string it rejects / leaves unfinished
+            if rng.random() < 0.2:
+                ml_parse(rng.choice(HISTORY_REJECTED + HISTORY_UNFINISHED), 0, aam, provocation="first")
+                tags.append("module_level_parse_after_rejected_or_unfinished")
+            m["history"] = ml_history()
+            m["reused_parser"] = False
+            g = ml_parse(s, off, aam)
+        else:
+            g = call_impl(impl_parse, s, multi, aam, off, False)
     if isinstance(g, ImplError):
         exact, can = [Atom("raised"), Atom(g.kind)], g
     else:
@@ -400,9 +718,10 @@ def check_case(chain, s, multi, aam, off, rng=None, tags=(), in_domain=True, met
     req = [Atom("C01"), Atom("check"), multi, aam, off, enc_chain(chain), S(s), exact]
     st = chain_stats(chain)
     key = (s, multi, aam, off) if (st['atoms'] >= 3 and (st['rings'] or st['branches'])) else None
-    m = {"pattern": s, "multi": multi, "aam": aam, "off": off, "via_function": via_function}
+    m["via_function"] = via_function
     m.update(meta or {})
-    return Case(req, can, in_domain=in_domain, meta=m, nontrivial_key=key, tags=tags)
+    case = Case(req, can, in_domain=in_domain, meta=m, nontrivial_key=key, tags=tags)
+    return case
 
 
 def lex_case(chain, s, in_domain=True, tags=()):
@@ -448,10 +767,46 @@ CORPUS = [
     ("C10CCCC10", False, False, 0), ("C1CC1C1CC1", False, False, 0), ("C(C1)1", True, False, 0),
     ("c1ccccc1-c1ccccc1", False, False, 0), ("C$C#C:C", False, True, 7), ("C1CCC.1", False, False, 0),
     ("C1CC<0,1>1", False, False, 0), ("SiCSnC", False, False, 0), ("Cn1cccc1", False, False, 0),
+    # every symbol of the documented alphabet and every documented bond symbol (two-letter symbols must not be
+    # shadowed by a one-letter alternative; every order is pinned by the reference table)
+    ("CCl", False, False, 0), ("ClC#N", False, False, 0), ("CSeC", False, False, 0),
+    ("HBrClSeSnSiMgLiCNOPSFBI", False, True, 2), ("bcnops", False, False, 0), ("C-C=C#C$C:C.C", False, False, 0),
+    ("C-C=C#C$C:C.C<1,2>C", True, True, 1), ("C1CC#1", False, False, 0), ("ClC(Cl)(Br)SeC1CSi$1", False, False, 0),
     # the 12-atom ITS pattern of the non-vacuity examples in Proofs/C01.lean
     ("C1(=O)c2ccccc2<1,2>N(.{g,a_1})<2,1>C$1.R", False, True, 3),
     ("C1(=O)c2ccccc2<1,2>N(.{g,a_1})<2,1>C$1.R", True, False, 0),
 ]
+
+
+def prepare_tolerant(r, proofs, audit_prop):
+    """`common.prepare`, except that a crash of ANOTHER property's table translator (harness/gen_tables_*.py:
+    e.g. gen_tables_c05.py instantiates FGConfigProvider, which parses the default patterns with the parser
+    under test and raises when `Cl` no longer lexes) does not turn this check into a machinery error: the
+    parser tables this property needs come from harness/gen_tables.py alone; the other Generated/*.lean files
+    are kept as they are (the driver links them, the C01/C02 operations do not read them).  A failure of
+    gen_tables.py itself stays a machinery error.  The event is recorded in the evidence."""
+    try:
+        return prepare(r, proofs, audit_prop)
+    except RuntimeError as e:
+        msg = str(e)
+        if not msg.startswith("gen_tables_"):
+            raise
+    orig = common.regenerate_tables
+
+    def only_parser_tables():
+        rc, out = common._run([sys.executable, os.path.join(common.VERIF, "harness", "gen_tables.py")], cwd=common.VERIF)
+        if rc != 0:
+            raise RuntimeError("gen_tables.py failed:\n" + out)
+        return out
+    common.regenerate_tables = only_parser_tables
+    try:
+        ok = prepare(r, proofs, audit_prop)
+    finally:
+        common.regenerate_tables = orig
+    r.extra_cov["translator_of_another_property_failed_on_this_tree"] = msg[-600:]
+    r.assumptions.append("a table translator of another property crashed on this source tree (%s); its Generated/*.lean files were "
+                         "left untouched; this check only reads Generated/Tables.lean" % msg.split(" failed")[0])
+    return ok
 
 
 def ask_wf(r, chains, multis):
@@ -460,13 +815,51 @@ def ask_wf(r, chains, multis):
     for rep in r.get_driver().batch(lines):
         if not (isinstance(rep, list) and rep and rep[0] == "ok"):
             raise RuntimeError("driver could not decode a chain: %r" % (rep,))
-        out.append((rep[1] == "1", rep[2] == "1"))
+        out.append((rep[1] == "1", rep[2] == "1", rep[4] == "1", rep[5] == "1"))
     return out
+
+
+def _ch(a, *items):
+    return (('e', a) if isinstance(a, str) else a, list(items))
+
+
+def invalid_chain(rng):
+    """a syntax tree that is NOT a valid writing of the documented syntax, with the reason the Python oracle
+    must give (the separate invalid stream: out of domain; keeps `py_wf`/`WFRef` from being trivially true)"""
+    x = rng.choice(['C', 'C', 'N', 'O', 'c', 'Cl', 'Se'])
+    y = rng.choice(['C', 'C', 'O', 'Br', 'Si'])
+    b = rng.choice([None, ('s', '-'), ('s', '='), ('s', '#'), ('s', ':')])
+    k = rng.randrange(11)
+    multi = rng.random() < 0.4
+    if k == 0:      # `S` directly followed by `n` is tin
+        c = _ch(x, ('n', b, _ch('S', ('n', None, _ch('n', ('n', None, _ch('c')))))))
+        return c, multi, "longer_symbol(Sn)"
+    if k == 1:      # adjacent ring digits fuse into one ring id
+        tail = _ch(y, ('n', None, _ch('C', ('r', None, '1'), ('n', None, _ch('C', ('r', None, '2'))))))
+        return _ch(x, ('r', None, '1'), ('r', None, '2'), ('n', b, tail)), multi, "ring_digits_fuse"
+    if k == 2:      # a bond symbol before a ring-OPENING digit
+        tail = _ch(y, ('n', b, _ch('C', ('r', None, '1'))))
+        return _ch(x, ('r', ('s', rng.choice('=#-:$')), '1'), ('n', None, tail)), multi, "bond_before_opening_ring_digit"
+    if k == 3:
+        return _ch(x, ('r', None, '1'), ('n', b, _ch(y, ('n', None, _ch('C'))))), multi, "unclosed_ring"
+    if k == 4:      # the same pair bonded twice in a simple graph
+        return _ch(x, ('r', None, '1'), ('n', b, _ch(y, ('r', None, '1')))), False, "pair_bonded_twice"
+    if k == 5:
+        return _ch(x, ('r', None, '1'), ('r', ('s', '-'), '1'), ('n', b, _ch(y))), multi, "self_bond"
+    if k == 6:
+        return _ch(x, ('n', b, _ch(rng.choice(['Na', 'X', 'Al', 'cl', 'Fe', 'K'])))), multi, "unknown_element"
+    if k == 7:
+        return _ch(x, ('n', ('s', rng.choice('/\\~*')), _ch(y))), multi, "unknown_bond_symbol"
+    if k == 8:
+        return _ch(x, ('n', b, _ch(('l', rng.choice([[''], ['a b'], ['a', ''], []]))))), multi, "label_text"
+    if k == 9:
+        return _ch(x, ('n', ('c', rng.choice(['a', '1', '-1']), rng.choice(['x', '1.5'])), _ch(y))), multi, "rc_bond_text"
+    return _ch(x, ('r', None, rng.choice(['', 'a', '1a'])), ('n', b, _ch(y, ('r', None, '1')))), multi, "ring_id_text"
 
 
 def run(tier, seed):
     r = Run("C01", tier, seed)
-    if not prepare(r, PROOFS, "C01"):
+    if not prepare_tolerant(r, PROOFS, "C01"):
         return 2
     rng = r.rng
     n_strings = 2000 if tier == "quick" else 200000
@@ -483,12 +876,20 @@ def run(tier, seed):
         c = read_chain(s)
         if c is None or render(c) != s:
             raise RuntimeError("corpus string not readable: %r" % s)
-        todo.append((c, s, multi, aam, off, ("corpus",)))
+        todo.append((c, s, multi, aam, off, ("corpus",), None, None))
     produced = 0
     exact_dis = 0
     thm_dis = 0
     spec_model_fail = 0
     ood_samples = []
+    reused = ReusedParsers(rng)
+    history_cases = 0
+    history_differs = 0
+    machinery = []           # the two oracles (Python / Lean reference) disagree, or the generator wrote an invalid string
+    wf_drift = []            # valid writings that WF over the REGENERATED tables rejects (or vice versa)
+    py_vs_impl = 0
+    n_generated = 0
+    n_invalid_stream = 0
     first = True
     while produced < n_strings or first:
         first = False
@@ -500,27 +901,78 @@ def run(tier, seed):
             multi = rng.random() < 0.35
             aam = rng.random() < 0.4
             off = rng.choice([0, 0, 1, 5, 17, -3])
+            if produced % 16 == 0:
+                # the separate invalid stream (out of domain; the oracles must both say "invalid")
+                c, multi, why = invalid_chain(rng)
+                batch.append((c, render(c), multi, aam, off, ("invalid_stream", "invalid:" + why.split("(")[0]), None, why))
+                continue
             p_low = rng.choice([0.0, 0.0, 0.3, 0.8])
             n = rng.choice([1, 2, 3, 4, 5, 6, 7, 8, 9, 10, 11, 12, 13, 14, 14, 20 if produced % 50 == 0 else 12])
-            c = gen_chain(rng, n, its, multi, p_low)
-            batch.append((c, render(c), multi, aam, off, ()))
+            c, wrote = gen_chain(rng, n, its, multi, p_low)
+            batch.append((c, render(c), multi, aam, off, ("generated",), wrote, None))
         wfs = ask_wf(r, [b[0] for b in batch], [b[2] for b in batch])
         cases = []
-        for (c, s, multi, aam, off, t0), (wf, wfcore) in zip(batch, wfs):
+        for (c, s, multi, aam, off, t0, wrote, why_invalid), (wf, wfcore, wf_gen, wfcore_gen) in zip(batch, wfs):
             st = chain_stats(c)
-            tags = list(t0) + ["valid_writing" if wf else "not_WF"]
+            # ---- domain: Python oracle and Lean WFRef (reference tables); they must agree
+            pywf, why = py_wf(c, multi)
+            if pywf != wf:
+                machinery.append("py_wf=%s (%s) but Lean WFRef=%s on %r multi=%s" % (pywf, why, wf, s, multi))
+            if wrote is not None:
+                n_generated += 1
+                if not pywf:
+                    machinery.append("the generator wrote %r which is not a valid writing (%s)" % (s, why))
+            if why_invalid is not None:
+                n_invalid_stream += 1
+                if pywf or why != why_invalid:
+                    machinery.append("invalid stream: %r expected %s, Python oracle says %s %s" % (s, why_invalid, pywf, why))
+            if wf != wf_gen and len(wf_drift) < 50:
+                wf_drift.append({"pattern": s, "multi": multi, "WFRef": wf, "WF_generated_tables": wf_gen})
+            in_dom = pywf and wf
+            # ---- denotation: the generator's own record (or, for corpus strings, the Python reading of the tree)
+            atoms, bonds, _marks, has_rc, _open = py_events(c)
+            if wrote is not None:
+                if wrote[0] != atoms or bonds_key(wrote[1]) != bonds_key(bonds):
+                    machinery.append("generator record and Python reading of %r differ" % s)
+                atoms, bonds = wrote
+            expect = canon(expected_canon(atoms, bonds, has_rc, multi, aam, off)) if in_dom else None
+            tags = list(t0) + ["valid_writing" if in_dom else "not_WF"]
             tags += [k for k in ("rings", "dots", "labels", "lower", "rc", "branches", "quad", "wild", "multidigit", "ring_bond", "ring_dot") if st[k]]
             tags += ["multigraph" if multi else "simple", "aam" if aam else "no_aam", "off=%d" % off,
                      "atoms>=12" if st['atoms'] >= 12 else "atoms<12"]
-            cases.append(check_case(c, s, multi, aam, off, rng, tags=tags, in_domain=wf, meta={"wf": wf, "wfcore": wfcore}))
-            if wf and rng.random() < 0.5:
+            if in_dom:
+                tags += ["elem:" + e for e in sorted({a[1] for a in atoms if a[0] == 'e' and len(a[1]) == 2})]
+                tags += ["bond:" + e for e in sorted({b[1] for _, _, b in bonds if b is not None and b[0] == 's'})]
+            # HISTORY scenarios: a fixed fraction (every 5th valid generated writing) goes through a reused Parser object
+            hist = reused if (in_dom and wrote is not None and n_generated % 5 == 0) else None
+            case = check_case(c, s, multi, aam, off, rng, tags=tags, in_domain=in_dom,
+                              meta={"wf": wf, "wfcore": wfcore, "wf_generated_tables": wf_gen}, reused=hist)
+            if hist is not None:
+                history_cases += 1
+                history_differs += not case.meta["reused_equals_fresh_object"]
+            case.meta["_expect"] = expect
+            cases.append(case)
+            if in_dom and rng.random() < 0.5:
                 cases.append(lex_case(c, s, tags=("lex",)))
         outs = r.evaluate(cases)
         for o in outs:
+            expect = o.case.meta.pop("_expect", None)
+            if o.ok_reply and o.case.req[1] == "check":
+                if (o.extra[2] == "1") != o.case.meta["wf"] or (o.extra[3] == "1") != o.case.meta["wf_generated_tables"]:
+                    machinery.append("driver ops wf and check disagree about %r" % o.case.meta["pattern"])
             if o.ok_reply and o.case.in_domain and o.case.req[1] == "check":
                 exact_dis += o.extra[0] == "0"
                 thm_dis += o.extra[1] == "0"
                 spec_model_fail += o.spec_model == "0"
+                # Python oracle vs Lean denoteRef: a mismatch is a machinery error
+                if expect != o.extra[4]:
+                    machinery.append("Python oracle and Lean denoteRef differ on %r: python %s lean %s" % (
+                        o.case.meta["pattern"], sx_of(expect)[:400], sx_of(o.extra[4])[:400]))
+                # Python oracle vs implementation: must coincide with the driver's spec_impl
+                differs = expect != o.impl_c
+                py_vs_impl += differs
+                if differs != (o.spec_impl == "0"):
+                    machinery.append("Python oracle and Lean spec verdict differ on %r" % o.case.meta["pattern"])
         # malformed stream (never decides the verdict)
         soups = []
         for _ in range(max(1, len(batch) // 8)):
@@ -530,30 +982,58 @@ def run(tier, seed):
                 ood_samples.append({"request": o.case.line()[:300], "pattern": o.case.meta.get("pattern"),
                                     "model": str(o.model)[:300], "impl": str(o.impl_c)[:300]})
     r.extra_cov["adjacency_order_disagreements_impl_vs_model"] = exact_dis
-    r.extra_cov["model_graph_differs_from_denote_graph"] = thm_dis
+    r.extra_cov["model_graph_differs_from_denoteRef_graph"] = thm_dis
     r.extra_cov["spec_fails_on_model_output"] = spec_model_fail
     r.extra_cov["out_of_domain_disagreement_samples"] = ood_samples
-    if thm_dis and not r.corr_failures and not r.spec_failures:
-        # the model parser and `denote` are proved equal (C01.parse_faithful): a difference means the
-        # driver or the build is inconsistent -> machinery failure, never a pass
-        print("ERROR property=C01 model parser and denote differ on %d valid writings" % thm_dis)
+    r.extra_cov["generated_writings_valid_by_construction"] = n_generated
+    r.extra_cov["history_cases_on_reused_parser_objects"] = history_cases
+    r.extra_cov["history_cases_where_reused_object_differs_from_fresh_object"] = history_differs
+    r.extra_cov["invalid_stream_cases"] = n_invalid_stream
+    r.extra_cov["oracle_disagreements(python_vs_lean_reference,generator)"] = len(machinery)
+    r.extra_cov["python_oracle_vs_implementation_mismatches"] = py_vs_impl
+    r.extra_cov["WF_over_generated_tables_differs_from_WFRef"] = len(wf_drift)
+    r.extra_cov["WF_drift_samples"] = wf_drift[:10]
+    if machinery:
+        p = r.write_replay("machinery", "oracles", {"note": "the Python oracle, the Lean reference specification and the generator must agree",
+                                                    "disagreements": machinery[:20]})
+        print("ERROR property=C01 %d disagreement(s) between the Python oracle / generator and the Lean reference "
+              "specification (WFRef, denoteRef); first: %s; see %s" % (len(machinery), machinery[0][:300], p))
         r.finish(level="proof")
         return 2
-    r.assumptions = [
+    if wf_drift and r.build.proofs_ok:
+        # C01.WF_eq_WFRef is proved for the tables of this build: a difference means the driver or the build is inconsistent
+        print("ERROR property=C01 WF (generated tables) and WFRef differ on %d writings although WF_eq_WFRef checked: %r" % (
+            len(wf_drift), wf_drift[0]))
+        r.finish(level="proof")
+        return 2
+    if thm_dis and not r.corr_failures and not r.spec_failures and r.build.proofs_ok:
+        # the model parser and `denoteRef` are proved equal (C01.parse_faithful_ref): a difference means the
+        # driver or the build is inconsistent -> machinery failure, never a pass
+        print("ERROR property=C01 model parser and denoteRef differ on %d valid writings" % thm_dis)
+        r.finish(level="proof")
+        return 2
+    r.assumptions = r.assumptions + [
         "Python `re` ordered alternation over the nine token shapes is modelled by C01.lex (validated on every run, not verified)",
         "networkx add_node/add_edge container semantics are modelled by Model/Graph.lean",
         "input strings are ASCII (`\\d`, `str.islower` and `.` are modelled on ASCII)",
         "adjacency order of the parser's graph is compared and reported (adjacency_order_disagreements_impl_vs_model) but does not decide the verdict: the property does not speak about it",
+        "the documented syntax is the hand-written reference of Model/C01Ref.lean (refAtoms, refBondTable, longest element symbol wins) "
+        "and, independently, of harness/c01.py (DOC_ATOMS, DOC_BOND); the two are compared on every case",
     ]
     return r.finish(
         level="proof",
-        rule="random syntax trees (1-20 atoms; elements incl. lower-case, R, {labels}; branches to depth 4; 0-4 ring closures with re-used and "
-             "multi-digit ids placed before/between/after branches; explicit vs implied bonds over - = # $ : . and <g,h>; dots in branches and before "
-             "ring closures) x idx_offset x init_aam x use_multigraph; in-domain = Lean WF (valid writing); non-trivial = >=3 atoms with a ring or branch, "
-             "distinct by (string, options); malformed stream out of domain",
+        rule="random syntax trees (1-20 atoms; every element of the documented alphabet incl. lower-case, R, {labels}; branches to depth 4; 0-4 ring "
+             "closures with re-used and multi-digit ids placed before/between/after branches; explicit vs implied bonds over - = # $ : . and <g,h>; dots "
+             "in branches and before ring closures) x idx_offset x init_aam x use_multigraph; valid by construction; in-domain = Python oracle py_wf = Lean "
+             "WFRef (reference tables, nothing regenerated from the source); non-trivial = >=3 atoms with a ring or branch, distinct by (string, options); "
+             "1/16 invalid stream (11 kinds) and the malformed stream out of domain; HISTORY: every 5th valid generated writing is parsed on a long-lived "
+             "Parser object per configuration (sessions of 2-40 writings; before it, 30% a <g,h> pattern, 30% a rejected string, 15% an unfinished "
+             "pattern on the same object) and the spec is applied to that result; the replay records all preceding calls",
         checker_cmd="cd lean && lake build FGVerif.Proofs.C01 && lake env lean FGVerif/Audit/C01.lean",
-        explanation="theorems in lean/FGVerif/Proofs/C01*.lean about Model/C01.lean (lexer + parser machine) and Model/C01Spec.lean (Chain, render, denote, WF); "
-                    "model tied to fgutils.parse by differential testing (tokens and graphs); the executable spec `denote` is compared with every implementation output")
+        explanation="theorems in lean/FGVerif/Proofs/C01*.lean about Model/C01.lean (lexer + parser machine), Model/C01Spec.lean (Chain, render, denote, WF over the "
+                    "regenerated tables) and Model/C01Ref.lean (WFRef, denoteRef over hand-written reference tables; WF_eq_WFRef, denote_eq_denoteRef under the table "
+                    "obligations tbl_atom_reachable, tbl_atom_alphabet_documented, tbl_bond_orders_documented); model tied to fgutils.parse by differential testing "
+                    "(tokens and graphs); the executable reference spec `denoteRef` and an independent Python oracle are compared with every implementation output")
 
 
 def replay(path):
@@ -567,8 +1047,18 @@ def replay(path):
         return 1
     req = parse_sx(line)
     print("pattern: %r options: multi=%s aam=%s off=%s" % (m.get("pattern"), m.get("multi"), m.get("aam"), m.get("off")))
+    if m.get("history") is not None:
+        print("%s had been used before for %d call(s) (the last ones):" % (
+            "HISTORY scenario: the Parser object" if m.get("reused_parser") else "the module-level parse()", len(m["history"])))
+        for c in m["history"][-12:]:
+            print("    parse(%r, idx_offset=%s) -> %s" % (c["pattern"], c["off"], c["result"]))
     if req[1] == "check" and "pattern" in m:
-        g = call_impl(impl_parse, m["pattern"], bool(m["multi"]), bool(m["aam"]), int(m["off"]))
+        if m.get("reused_parser"):
+            g = replay_history(bool(m["multi"]), bool(m["aam"]), m["history"], m["pattern"], int(m["off"]))
+        elif m.get("history") is not None:
+            g = ml_replay(m["history"], m["pattern"], int(m["off"]), bool(m["aam"]))
+        else:
+            g = call_impl(impl_parse, m["pattern"], bool(m["multi"]), bool(m["aam"]), int(m["off"]))
         can = g if isinstance(g, ImplError) else canon_graph(g)
         now = sx([Atom("raised"), Atom(can.kind)]) if isinstance(can, ImplError) else sx(can)
         print("implementation now : %s" % now)
@@ -576,6 +1066,11 @@ def replay(path):
         head = line[:line.rfind(d["impl_output"])] if d.get("impl_output") and d["impl_output"] in line else None
         if head is not None:
             line = head + now + ")"
+    if req[1] == "lex" and "pattern" in m:
+        toks = call_impl(impl_tokens, m["pattern"])
+        now = sx([Atom("raised"), Atom(toks.kind)]) if isinstance(toks, ImplError) else sx(toks)
+        print("implementation now : %s" % now)
+        line = sx_of(req[:-1])[:-1] + " " + now + ")"
     drv = Driver()
     rep = drv.ask(line)
     drv.close()
